@@ -218,3 +218,38 @@ Theorem shared_monitor_orphans_a_waiter_refuted :
      startMonitor (redisAlive = 0), whether the store is up or down *)
   shrun s [ShMon; ShFail 2%nat; ShDown; ShFail 2%nat; ShMon; ShUp; ShMon; ShMon] = s.
 Proof. vm_compute. repeat split; reflexivity. Qed.
+
+(* ------------------------------------------------------------------ seeded C03-8: a deadline that runs out
+   during the store call taken for a store failure.  [dl_step]: TAllowD (deadline kind) behaves like a
+   failed command: startMonitor + rescue limiter.  Rate 1 / burst 3, two instances, the store
+   reachable all the time: instance 1 drains the shared bucket; a request of instance 0 whose deadline
+   passes while it waits for a connection (the script never runs) is GRANTED by the private bucket and
+   switches instance 0 to rescue mode, where it grants two more: 6 tokens at one instant, bound 3.
+   HEAD refuses the request and stays on the store (Props.caller_context_never_starts_rescue). *)
+Definition dl_step (c : tcfg) (s : tstate) (o : top) : tstate * tobs :=
+  match o with
+  | TAllowD i now n rescue _ =>
+    match nth_error (tinsts s) i with
+    | Some t => let '(st', t', r) := reserve c t now n rescue (tstore s) true in
+                (mkTS st' (tdown s) (set_nth i t' (tinsts s)), r)
+    | None => (s, TU)
+    end
+  | _ => tstep c s o
+  end.
+Fixpoint dl_run (c : tcfg) (s : tstate) (ops : list top) : list tobs :=
+  match ops with
+  | [] => []
+  | o :: ops' => let '(s', r) := dl_step c s o in r :: dl_run c s' ops'
+  end.
+Definition dl_cfg := mkCfg 1 3 (BStr "{tk}.tokens") (BStr "{tk}.ts").
+Definition dl_history : list top :=
+  [TAllow 1 skew_T 3 false true; TAllowD 0 skew_T 1 true false; TAllow 0 skew_T 1 true true; TAllow 0 skew_T 1 true true;
+   TAllow 1 skew_T 1 false true].
+Theorem deadline_is_store_failure_refuted :
+  twf skew_T dl_history = true /\
+  dl_run dl_cfg (tinit true skew_T 2) dl_history =
+    [TR true true true; TR true false false; TR true false false; TR true false false; TR false true true] /\
+  trun dl_cfg (tinit true skew_T 2) dl_history =
+    [TR true true true; TR false true false; TR false true true; TR false true true; TR false true true] /\
+  burst dl_cfg < granted_any dl_history (dl_run dl_cfg (tinit true skew_T 2) dl_history).
+Proof. vm_compute. repeat split; reflexivity. Qed.
